@@ -22,6 +22,7 @@ from __future__ import annotations
 
 import re
 import time
+import zlib
 from typing import Any, Dict, List, Optional, Sequence, Tuple
 
 from ..core import Ctx, HarnessError, Report, Violation, mix32
@@ -135,7 +136,7 @@ def excluded(toks: Sequence[TP.Tok]) -> bool:
 # assembler access
 # ----------------------------------------------------------------------------------------------------------
 
-_ASM_CACHE: Dict[str, Tuple[Optional[bytes], Optional[str]]] = {}
+_ASM_CACHE: Dict[Tuple[str, int], Tuple[Optional[bytes], Optional[str]]] = {}
 
 
 def norm_error(msg: str) -> str:
@@ -162,16 +163,22 @@ def assemble_raw(text: str, addr: int) -> Tuple[Optional[bytes], Optional[str]]:
         return None, f"{type(exc).__name__}: " + norm_error(str(exc))
 
 
+def page_of(text: str) -> int:
+    """The 64 KiB page (1..14) a text is assembled and executed in: a stable function of the text, so that
+    results can be cached per text while the pages still vary over the run."""
+    return 1 + zlib.crc32(text.encode()) % 14
+
+
 def assemble(text: str, addr: int) -> Tuple[Optional[bytes], Optional[str], bool]:
-    """Cached on the text (the .ORG address never influences texts the disassembler can print: relative
-    branches are printed as signed offsets, near targets as 16-bit literals)."""
-    hit = _ASM_CACHE.get(text)
+    """Cached on (text, page of the .ORG address)."""
+    key = (text, addr & 0xF0000)
+    hit = _ASM_CACHE.get(key)
     if hit is not None:
         return hit[0], hit[1], True
     res = assemble_raw(text, addr & 0xF0000)
     if len(_ASM_CACHE) > 200000:
         _ASM_CACHE.clear()
-    _ASM_CACHE[text] = res
+    _ASM_CACHE[key] = res
     return res[0], res[1], False
 
 
@@ -234,7 +241,7 @@ def settle_end(state: Dict[str, Any], codes: Sequence[bytes], st: S.Stream) -> b
             ok = all(abs(d - end) > 0x600 for d in dang) and end < 0xFF000
         if ok:
             return True
-        state["end"] = 0x01000 + st.below(0xE0000)
+        state["end"] = (end & 0xF0000) | (0x0100 + st.below(0xFE00))
     return False
 
 
@@ -348,6 +355,10 @@ def verdict(code: bytes, state: Optional[Dict[str, Any]], recheck: bool = False,
     text = mk_text(ta)
     where = where_of(ta)
     info.update(text=text, where=where)
+    if state is not None and st is not None:
+        # exploration: the instruction lives in the page derived from its text (replay keeps the saved address)
+        state = dict(state)
+        state["end"] = (page_of(text) << 16) | (state["end"] & 0xFFFF)
     saved = {"code": code.hex(), "state": state}
     out: List[Violation] = []
 
